@@ -3,6 +3,8 @@
    sumbool, sumor map to their OCaml counterparts; nat, positive, N, Z stay Coq inductive types. *)
 Require Import Coq.ZArith.ZArith.
 Require Import Trzsz.Model.Escape.
+Require Import Trzsz.Model.Tunnel.
+Require Import Trzsz.Model.TunnelReplay.
 Require Extraction.
 Require Import ExtrOcamlBasic.
 Extraction "model.ml"
@@ -31,4 +33,23 @@ Extraction "model.ml"
   Escape.table_of_json
   Escape.builtin_table
   Escape.esc_code
-  Escape.unesc_code.
+  Escape.unesc_code
+  Tunnel.client_hello
+  Tunnel.server_hello
+  Tunnel.hello_matches
+  Tunnel.observe
+  Tunnel.client_decides
+  Tunnel.s_conns
+  Tunnel.s_tconn
+  Tunnel.s_tconnected
+  Tunnel.s_writer
+  Tunnel.s_act
+  Tunnel.s_inbuf
+  Tunnel.s_dropped
+  Tunnel.s_lis
+  Tunnel.k_first
+  Tunnel.k_won
+  Tunnel.k_pump
+  Tunnel.k_closed
+  Tunnel.k_tx
+  TunnelReplay.rreplay.
